@@ -100,3 +100,30 @@ def lookup(records, key: str):
             elif sri_parse(r["integrity"]) is not None:
                 cur = r
     return cur
+
+
+def record_json_styled(key, integrity, time, size, metadata, raw, style):
+    """The same record in spellings another implementation of the format might use (all valid JSON,
+    all accepted by a reader that checksums the *text on disk*): python-style separators and \\u
+    escapes, insertion-ordered metadata keys, a different field order, an extra field."""
+    import json as _j
+    rawv = None if raw is None else list(raw)
+    fields = [("key", key), ("integrity", integrity), ("time", time), ("size", size), ("metadata", metadata),
+              ("raw_metadata", rawv)]
+    if style == "python":          # ", " / ": " separators, non-ASCII as \uXXXX, insertion order
+        return _j.dumps(dict(fields))
+    if style == "unsorted":        # compact, but metadata keys in insertion (reverse-sorted) order
+        def rend(v):
+            if isinstance(v, dict):
+                items = sorted(v.items(), key=lambda kv: kv[0].encode(), reverse=True)
+                return "{" + ",".join(_j.dumps(k, ensure_ascii=False) + ":" + rend(x) for k, x in items) + "}"
+            if isinstance(v, list):
+                return "[" + ",".join(rend(x) for x in v) + "]"
+            return _j.dumps(v, ensure_ascii=False)
+        return "{" + ",".join(_j.dumps(k) + ":" + rend(v) for k, v in fields) + "}"
+    if style == "reordered":       # fields in another order plus an unknown field
+        f2 = [fields[4], fields[0], ("x-extra", [1, {"a": None}]), fields[3], fields[2], fields[1], fields[5]]
+        return "{" + ",".join(_j.dumps(k) + ":" + render_json(v) for k, v in f2) + "}"
+    if style == "spaced":
+        return "{ " + " , ".join(_j.dumps(k) + " : " + render_json(v) for k, v in fields) + " }"
+    return record_json(key, integrity, time, size, metadata, raw)
